@@ -686,8 +686,24 @@ func executeDirectives(inst *Instance, filename string,
 	return nil
 }
 
-func startServers(serverList []Server, inst *Instance, restartFds map[string]restartTriple) error {
+func startServers(serverList []Server, inst *Instance, restartFds map[string]restartTriple) (err error) {
 	errChan := make(chan error, len(serverList))
+
+	// if a server fails to listen, the instance is discarded: release
+	// the listeners already opened (or inherited) for it
+	defer func() {
+		if err != nil {
+			for _, s := range inst.servers {
+				if s.listener != nil {
+					s.listener.Close()
+				}
+				if s.packet != nil {
+					s.packet.Close()
+				}
+			}
+			inst.servers = nil
+		}
+	}()
 
 	// used for signaling to error logging goroutine to terminate
 	stopChan := make(chan struct{})
